@@ -36,7 +36,8 @@ impl Scope {
 }
 
 const NUMS: &[&str] = &["0", "1", "2", "3", "5", "10", "0.5", "2.5", "100", "7", "1e3", "0.1"];
-const STRS: &[&str] = &["\"a\"", "\"b\"", "\"hello\"", "\"\"", "\"héllo\"", "\"x y\"", "'q'"];
+const STRS: &[&str] = &["\"a\"", "\"b\"", "\"hello\"", "\"\"", "\"héllo\"", "\"x y\"", "'q'",
+    "\"a rather long string literal, well over forty-eight bytes in total, kept under a name\"", "\"0123456789012345678901234567890123456789012345678901234567890123\""];
 /// same-category unit pairs; several identifiers differ from another unit's only in case
 const UNIT_PAIRS: &[(&str, &str)] = &[
     ("mm", "m"), ("Mm", "m"), ("mm", "Mm"), ("km", "mm"), ("mW", "W"), ("MW", "W"), ("mW", "MW"), ("mA", "MA"), ("mA", "A"),
@@ -214,7 +215,20 @@ pub fn gen_program(rng: &mut Rng, n_stmts: usize, depth: usize) -> (String, Scop
     let mut sc = Scope::new();
     let mut lines: Vec<String> = vec![];
     for _ in 0..n_stmts {
-        match rng.below(14) {
+        match rng.below(15) {
+            14 => {
+                // a long string kept under a name, then used (twice) as the left operand of `+` with another
+                // name on the right: nothing is allocated between the binding and the use
+                let sfx = sc.fresh("s");
+                lines.push(format!("{} = {}", sfx, rng.pick(&["\"!\"", "\"\"", "\" and more\""])));
+                sc.vars.push((sfx.clone(), Ty::Str));
+                let long = sc.fresh("s");
+                lines.push(format!("{} = \"{}\"", long, "long text ".repeat(5 + rng.below(4))));
+                sc.vars.push((long.clone(), Ty::Str));
+                lines.push(format!("{} + {}", long, sfx));
+                lines.push(format!("{} + {}", long, sfx));
+                lines.push(format!("len({})", long));
+            }
             0..=5 => {
                 let ty = *rng.pick(&[Ty::Num, Ty::Num, Ty::Bool, Ty::Str, Ty::ListNum, Ty::Rec, Ty::FnNum, Ty::ListAny]);
                 let name = sc.fresh(match ty { Ty::Num => "n", Ty::Bool => "b", Ty::Str => "s", Ty::ListNum => "l", Ty::Rec => "r", Ty::FnNum => "f", _ => "v" });
